@@ -879,7 +879,11 @@ def m_type_name(m, st, ctx, args, span):
         if "ty" in g:
             t = g["ty"]
     import json as _json
-    return Opaque(E("type_name", (t["s"] if t else "?", t["k"] if t else "?", _json.dumps(t, sort_keys=True) if t else "null")), ctx.dest_ty)
+    rendered = None
+    tn = ctx.term["callee"].get("type_names") if ctx.term.get("callee") else None
+    if tn:
+        rendered = tn[-1]
+    return Opaque(E("type_name", (t["s"] if t else "?", t["k"] if t else "?", _json.dumps(t, sort_keys=True) if t else "null", rendered)), ctx.dest_ty)
 
 
 @model("core::fmt::rt::Argument::<'_>::new_display", "core::fmt::rt::Argument::<'_>::new_debug",
